@@ -6,7 +6,6 @@
 //@include shims/seglog_env.rs DISK=72
 use env::{BufWriter, File, OpenOptions, SeekFrom, DISK, DISK_SIZE};
 use std::borrow::Cow;
-use std::io;
 use std::mem;
 use std::path::Path;
 use std::sync::Arc;
@@ -30,6 +29,8 @@ use self::parse::parse_record;
 
 pub mod parse {
     use super::*;
+    // parse.rs spells `std::io::Error` in full: a local `std` whose `io` is the model
+    mod std { pub use ::std::*; pub use crate::io; }
 //@item parse_record
 }
 
@@ -116,6 +117,8 @@ mod verif {
         let bytes = &buf[..len];
         let r = parse_record::<1>(bytes, off);
         let have_head = off + 8 <= len;
+        kani::cover!(matches!(r, Ok(_)), "reachable: a record is accepted");
+        kani::cover!(matches!(r, Err(ReadError::Crc32cMismatch { .. })), "reachable: a record is rejected");
         match r {
             Ok((h, d, n)) => {
                 assert!(have_head);
@@ -134,7 +137,7 @@ mod verif {
                     let i: usize = kani::any();
                     if i < stored.len() { assert!(d[i] == stored[i], "uncompressed data is returned byte-identical"); }
                 } else {
-                    assert!(stored.len() >= 5 && stored[4] == 0x5A && d.len() == stored.len() - 5, "compressed data decodes through the codec");
+                    assert!(stored.len() >= 5 && ((stored[4] == 0x5A && d.len() == stored.len() - 5) || (stored.len() == 6 && stored[4] & 0x80 != 0 && d.len() == (stored[4] & 0x7F) as usize)), "compressed data decodes through the codec");
                 }
             }
             Err(ReadError::OutOfBounds { .. }) => {
@@ -377,7 +380,7 @@ mod verif {
     fn wf(w: &Writer<1>) -> bool {
         let pos = w.writer.pos; let bl = w.writer.buffered() as u64; let fl = w.flushed_offset.load();
         pos + bl == w.write_offset && START <= fl && fl <= pos && w.write_offset <= w.size as u64 && w.size <= DISK_SIZE
-            && (w.dirty || (bl == 0 && fl == w.write_offset)) && w.writer.buffered() < w.writer.cap
+            && (w.dirty || (bl == 0 && fl == w.write_offset)) && w.writer.buffered() <= w.writer.cap
     }
     fn any_wf_writer() -> Writer<1> {
         let size: usize = kani::any();
@@ -385,7 +388,7 @@ mod verif {
         let bl: usize = kani::any();
         let fl: u64 = kani::any();
         let dirty: bool = kani::any();
-        kani::assume(size <= 60 && START <= wo && wo as usize <= size && bl < WRITE_BUF_SIZE && (bl as u64) <= wo - START);
+        kani::assume(size <= 60 && START <= wo && wo as usize <= size && bl <= WRITE_BUF_SIZE && (bl as u64) <= wo - START);
         let pos = wo - bl as u64;
         kani::assume(START <= fl && fl <= pos && (dirty || (bl == 0 && fl == wo)));
         let mut bw = BufWriter::with_capacity(WRITE_BUF_SIZE, File);
@@ -412,6 +415,7 @@ mod verif {
         let before_i = logical(&w, &old_disk, i);
         let o: u64 = kani::any();
         kani::assume(o >= START); // callers truncate to record offsets, which lie at or after the start offset
+        kani::cover!(o < old_wo && w.writer.buffered() > 0, "reachable: truncation with buffered bytes");
         ok(w.set_len(o));
         assert!(wf(&w), "after set_len the file cursor is aligned with the logical write offset (the next append lands where it is reported)");
         if o >= old_wo {
@@ -437,6 +441,7 @@ mod verif {
         let wo = w.write_offset;
         unsafe { env::PUB_PTR = std::sync::Arc::as_ptr(&w.flushed_offset.0); env::PUB_AT_LAST_WRITE = old_fl; env::PUB_AT_LAST_SYNC = old_fl; }
         let buffered_before = w.writer.buffered();
+        kani::cover!(was_dirty && buffered_before > 0 && old_fl < wo, "reachable: dirty writer with buffered, unpublished bytes");
         let r = ok(w.sync());
         unsafe { env::PUB_PTR = std::ptr::null(); }
         assert!(r == wo && w.write_offset == wo, "sync returns the write offset");
@@ -461,6 +466,8 @@ mod verif {
         let header: [u8; 1] = kani::any();
         let data: [u8; DL] = kani::any();
         let need = RECORD_HEAD_SIZE + 1 + DL;
+        kani::cover!(old_wo as usize + need == w.size && w.writer.buffered() > 0, "reachable: exact fit with buffered bytes");
+        kani::cover!(old_wo as usize + need > w.size, "reachable: does not fit");
         match w.append(&header, &data[..]) {
             Ok((o, n)) => {
                 assert!(o == old_wo && n == need && w.write_offset == old_wo + need as u64 && old_wo as usize + need <= w.size, "appended at the old write offset, only if it fits");
@@ -485,6 +492,39 @@ mod verif {
             Err(_) => { assert!(false, "no other error on a healthy disk"); }
         }
     }
+    /// C19 at the seglog layer, compression ON or OFF, compressible and incompressible data: an append is refused for lack of
+    /// space only if the UNCOMPRESSED record does not fit (the size callers budget for); a stored record never exceeds it.
+    fn append_never_refused<const DL: usize, const RUN: bool>() {
+        unsafe { DISK = [0u8; DISK_SIZE]; }
+        // the space check reads only the write offset and the segment size: a writer with an empty buffer at ANY offset
+        let size: usize = DISK_SIZE;
+        let start: u64 = kani::any();
+        kani::assume(START <= start && start as usize <= size);
+        let mut w = new_writer(size, start);
+        w.compression_enabled = kani::any();
+        let (old_wo, old_fl) = (w.write_offset, w.flushed_offset.load());
+        let header: [u8; 1] = kani::any();
+        // compressible (a run of one byte) or incompressible (any bytes that are not a run): one harness each, so that the
+        // stored length is concrete per harness
+        let data: [u8; DL] = if RUN { [kani::any(); DL] } else { let d: [u8; DL] = kani::any(); kani::assume(d[0] != d[1]); d };
+        let need = RECORD_HEAD_SIZE + 1 + DL;
+        let is_run = RUN;
+        kani::cover!(w.compression_enabled && old_wo as usize + need == w.size, "reachable: data that fits exactly, compression on");
+        kani::cover!(w.compression_enabled && old_wo as usize + need > w.size, "reachable: data whose plain form does not fit");
+        match w.append(&header, &data[..]) {
+            Ok((o, n)) => {
+                assert!(o == old_wo && n <= need && w.write_offset == old_wo + n as u64 && w.write_offset as usize <= w.size, "stored at the old write offset, never larger than the uncompressed record");
+                assert!(wf(&w) && w.dirty && w.flushed_offset.load() == old_fl, "an append keeps the cursor aligned and publishes nothing");
+            }
+            Err(WriteError::SegmentFull { .. }) => {
+                assert!(old_wo as usize + need > w.size, "a record whose uncompressed form fits is never refused for lack of space");
+                assert!(wf(&w) && w.write_offset == old_wo && w.flushed_offset.load() == old_fl, "a refused append changes nothing");
+            }
+            Err(_) => { assert!(false, "no other error on a healthy disk"); }
+        }
+    }
+    #[kani::proof] #[kani::unwind(16)] fn wr_append_never_refused_incompressible() { append_never_refused::<7, false>(); }
+    #[kani::proof] #[kani::unwind(16)] fn wr_append_never_refused_compressible() { append_never_refused::<7, true>(); }
     #[kani::proof] #[kani::unwind(12)] fn wr_append_step_small() { append_step::<2>(); }
     #[kani::proof] #[kani::unwind(18)] fn wr_append_step_write_through() { append_step::<8>(); }
 
